@@ -24,6 +24,8 @@ func c20Pool() []replLine {
 		{"1 +;", true, "syntax"}, {Print("1")[:len(Print("1"))-1], true, "syntax"}, {")", true, "syntax"}, {"{", true, "syntax"}, {"1 = 2;", true, "syntax"},
 		{"1 / 0;", true, "runtime"}, {"নেই;", true, "runtime"}, {"nil.k;", true, "runtime"}, {BI("len", "5") + ";", true, "runtime"}, {Break(), true, "runtime"}, {Ret("1"), true, "runtime"},
 		{Print("1") + " 1 / 0; " + Print("2"), true, "runtime"},
+		// echo of a value that holds a self-containing member
+		{Var("ka", "[1]") + " ka[0] = ka; [ka];", true, "echo"}, {Var("pa", "{}") + " " + Var("ch", "{up: pa}") + " pa.down = ch; ({w: pa});", true, "echo"},
 		// output produced by a statement that then fails belongs to that line's response
 		{"{ " + Print(`"in block"`) + " " + Break() + " }", true, "runtime"}, {If(True(), "{ "+Print("1")+" "+Ret("")+" }"), true, "runtime"}, {While(True(), "{ "+Print(`"in loop"`)+" "+Ret("2")+" }"), true, "runtime"},
 		{"7; " + If(True(), "{ 8; "+Continue()+" }"), true, "runtime"}, {For(Var("i", "0"), "i < 2", "i = i + 1", "{ "+Print("i")+" }") + " " + Print("1 / 0"), true, "runtime"}, {B["len"] + " = nil; " + BI("len", "[1]") + ";", true, "runtime"},
